@@ -220,6 +220,26 @@ theorem joins_reverse (e1 n1 e2 n2 : ℝ) (h : e1 < e2) :
   simp only [pown_def, sqrt_def]
   congr 1; ring
 
+/-- `joins_reverse` for a line running west: the back bearing is the forward bearing − 180. -/
+theorem joins_reverse_west (e1 n1 e2 n2 : ℝ) (h : e2 < e1) :
+    (joins e2 n2 e1 n1).1 = (joins e1 n1 e2 n2).1 ∧
+    (joins e2 n2 e1 n1).2 = (joins e1 n1 e2 n2).2 - 180 := by
+  have he : e1 - e2 = -(e2 - e1) := by ring
+  have hn : n1 - n2 = -(n2 - n1) := by ring
+  unfold joins
+  rw [he, hn]
+  refine ⟨?_, back_bearing_west _ _ (by linarith)⟩
+  rw [rect2polar_eq, rect2polar_eq]
+  simp only [pown_def, sqrt_def]
+  congr 1; ring
+
+/-- `joins_reverse` on a meridian (same easting): north (0) one way, south (180) the other. -/
+theorem joins_reverse_meridian (e n1 n2 : ℝ) (h : n1 < n2) :
+    (joins e n1 e n2).2 = 0 ∧ (joins e n2 e n1).2 = 180 := by
+  unfold joins
+  rw [sub_self]
+  exact ⟨bearing_north _ (by linarith), bearing_south _ (by linarith)⟩
+
 theorem rotation_scale (e n b d ρ k : ℝ) :
     radiations e n b d ρ k =
       (e + k * d * Real.sin ((b + ρ) * (Real.pi / 180)),
@@ -685,6 +705,8 @@ end GeodeVerif.C19
 #print axioms GeodeVerif.C19.back_bearing_east
 #print axioms GeodeVerif.C19.back_bearing_west
 #print axioms GeodeVerif.C19.joins_reverse
+#print axioms GeodeVerif.C19.joins_reverse_west
+#print axioms GeodeVerif.C19.joins_reverse_meridian
 #print axioms GeodeVerif.C19.rotation_scale
 #print axioms GeodeVerif.C19.rotation_scale_as_plain
 #print axioms GeodeVerif.C19.rotation_full_turn
